@@ -10,6 +10,9 @@ PROTOS = {(1.0, "const", 55.0): "io", (2.0, "sqrt", 55.0): "p2", (5.0, "linear3"
 CPU_HEAVY = {"p5", "p6", "p7"}
 
 
+STALE = object()
+
+
 def seg_key(seg):
     from eudoxia.workload.pipeline import Segment
     law = [n for n, f in Segment.SCALING_FUNCS.items() if f == seg.scaling_func]
@@ -28,7 +31,11 @@ def step_generator(params, nticks, max_pipelines, stats, check=True):
     npl = params["num_pipelines"]
     probs = {"INTERACTIVE": params["interactive_prob"], "QUERY": params["query_prob"], "BATCH_PIPELINE": params["batch_prob"]}
     while t < nticks and stats["pipelines"] < max_pipelines:
-        out = g.run_one_tick()
+        ret = g.run_one_tick()
+        out = list(ret)
+        if any(x is STALE for x in out):
+            raise Violation("C15.stale_delivery", {"tick": t, "why": "a list handed out earlier and modified by the caller came back"}, t)
+        ret.append(STALE)          # callers own what they are handed (merging workloads extend these lists)
         if out:
             if last_emit is not None:
                 gaps.append(t - last_emit)
